@@ -51,7 +51,9 @@ logenv)
 			shift 3;;
 		P)	case "$2" in
 			D)	mkdir -p "$b/$3";;
-			*)	mkdir -p "$(dirname "$b/$3")"; printf 'put\n' >"$b/$3";;
+			*)	mkdir -p "$(dirname "$b/$3")"
+				# created unless something is at that path already (NameNewDefs.lstep LAdd)
+				[ -e "$b/$3" ] || [ -L "$b/$3" ] || printf 'put\n' >"$b/$3";;
 			esac
 			shift 3;;
 		X)	rm -rf "${b:?}/$2"
